@@ -67,9 +67,20 @@ def launch(run, jobs, timeout=600):
             if outp.exists():
                 res[k] = json.loads(outp.read_text())
             else:
-                res[k] = {"crash": "no output: " + log[-800:]}
+                # no output file: the interpreter was killed (time limit on a loaded machine, out of memory) before
+                # the runner could write anything - a Python exception is written by the runner itself as "crash".
+                # Not a behaviour of the library: retried once alone below, then counted as undecided, never an alarm
+                res[k] = {"killed": "rc=%s %s" % (p.returncode, log[-300:])}
         if not done:
             time.sleep(0.05)
+    redo = [k for k, r in enumerate(res) if r is not None and "killed" in r]
+    if redo and not getattr(launch, "_retrying", False):
+        launch._retrying = True
+        try:
+            for k in redo:                      # one at a time, with twice the time
+                res[k] = launch(run, [jobs[k]], timeout=2 * timeout)[0]
+        finally:
+            launch._retrying = False
     return res
 
 
@@ -230,11 +241,17 @@ def main(run, replay=None):
         st = stats.setdefault(lab, {"runs": 0, "same": 0, "differ": 0, "crash": 0, "inputs_altered": 0})
         st["runs"] += 1
         b = base.get(m["target"])
+        if b is not None and "killed" in b:
+            st["killed"] = st.get("killed", 0) + 1
+            continue
         if b is None or "crash" in b:
             if lab == "baseline":
                 run.report({"kind": "baseline-crash", "target": m["target"]}, "a target computation fails in a fresh interpreter",
                            {"target": m["target"], "trace": (b or {}).get("crash")}, found_input=True,
                            theorem_or_case="baseline")
+            continue
+        if "killed" in o:
+            st["killed"] = st.get("killed", 0) + 1      # undecided (resource limit), see launch()
             continue
         if "crash" in o:
             st["crash"] += 1
